@@ -8,6 +8,7 @@ import (
 	"runtime/debug"
 	"sort"
 	"strings"
+	"time"
 
 	"github.com/vedadiyan/genql"
 
@@ -168,11 +169,12 @@ func short(s string, n int) string {
 
 // sqlWitness runs the generic part of a known-findings witness: a document, a
 // query, options and an expectation.
-//   kind rows     : Exec succeeds and rows == expect as a sequence
-//   kind multiset : … as a multiset
-//   kind error    : New or Exec returns an error (no panic, no rows)
-//   kind noerror  : New+Exec succeed (no panic)
-//   kind nopanic  : no panic escapes (error or success both fine)
+//
+//	kind rows     : Exec succeeds and rows == expect as a sequence
+//	kind multiset : … as a multiset
+//	kind error    : New or Exec returns an error (no panic, no rows)
+//	kind noerror  : New+Exec succeed (no panic)
+//	kind nopanic  : no panic escapes (error or success both fine)
 func sqlWitness(c *fw.Case, w *fw.Finding) {
 	doc, _ := val.Copy(w.Doc).(map[string]any)
 	if doc == nil {
@@ -224,3 +226,5 @@ func sqlWitness(c *fw.Case, w *fw.Finding) {
 		}
 	}
 }
+
+func sleepMs(n int) { time.Sleep(time.Duration(n) * time.Millisecond) }
